@@ -473,7 +473,82 @@ def parse_kernel(src, fname, stride_ty):
         raise ParseError("%s: letter loop not recognised" % fname)
     if "ifi<l{g.encode_into(&seq[i..],&mutdst[i..])?;}" not in nb:
         raise ParseError("%s: scalar tail not recognised" % fname)
+    # Addressing discipline assumed by the list model (EncodeModel.loadu/storeu, EncodeMem.v):
+    # one cursor `i` and two raw pointers that start at the slices and advance together by
+    # STRIDE, one unaligned load from src_ptr and one unaligned store of `encoded` to dst_ptr
+    # per iteration, nothing that depends on the address (aligned load/store, align_offset, ...).
+    p = "_mm256" if stride_ty == "__m256i" else "_mm"
+    w = "256" if stride_ty == "__m256i" else "128"
+    for var, want in (("i", ["letmuti=0;", "i+=STRIDE;"]),
+                      ("src_ptr", ["letmutsrc_ptr=seq.as_ptr();", "src_ptr=src_ptr.add(STRIDE);"]),
+                      ("dst_ptr", ["letmutdst_ptr=dst.as_mut_ptr();", "dst_ptr=dst_ptr.add(STRIDE);"])):
+        found = re.findall(r"(?:(?<![A-Za-z0-9_])letmut|(?<![A-Za-z0-9_])let|(?<![A-Za-z0-9_.]))%s(?:\+|-|\*)?=(?!=)[^;]*;" % var, nb)
+        if sorted(found) != sorted(want):
+            raise ParseError("%s: assignments to `%s` are %r, the model assumes %r" % (fname, var, found, want))
+    loads = re.findall(r"_mm(?:256)?_(?:lddqu|loadu?|stream_load)_si\d+\([^;]*\)", nb)
+    if loads != ["%s_loadu_si%s(src_ptras*const%s)" % (p, w, stride_ty)]:
+        raise ParseError("%s: vector loads %r (model: one unaligned load of the block at src_ptr)" % (fname, loads))
+    stores = re.findall(r"_mm(?:256)?_(?:storeu?|stream|maskstore|maskmoveu)_si\d+\([^;]*\)", nb)
+    allowed_extra = ["_mm_storeu_si128(x.as_mut_ptr()as*mut__m128i,error)"] if stride_ty == "__m128i" else []
+    want_st = ["%s_storeu_si%s(dst_ptras*mut%s,encoded)" % (p, w, stride_ty)] + allowed_extra
+    if stores != want_st:
+        raise ParseError("%s: vector stores %r (model: %r)" % (fname, stores, want_st))
+    for bad in ("align_offset", "align_to", "is_aligned", "copy_nonoverlapping", "ptr::write", ".offset(", ".sub("):
+        if bad in nb:
+            raise ParseError("%s: `%s` occurs in the kernel (address-dependent code is not modelled)" % (fname, bad))
+    if re.search(r"(?:ptr|as_ptr\(\)|as_mut_ptr\(\))as(?:usize|u64|isize|\*const\(\))", nb):
+        raise ParseError("%s: a pointer is cast to an integer (address-dependent code is not modelled)" % fname)
+    if nb.count("assert_eq!(seq.len(),dst.len());") != 1 or nb.find("assert_eq!(seq.len(),dst.len());") > nb.find("unsafe{"):
+        raise ParseError("%s: assert_eq!(seq.len(), dst.len()) is not the first statement before the unsafe block" % fname)
     return dict(strict=strict, init_minus_one=init_minus_one)
+
+
+def check_bodies(seq_src, mod_src):
+    """Textual tie of the small bodies that the model transcribes by hand:
+    EncodedSequence::{new, encode}, FromStr::from_str, Display::fmt (seq.rs) and the trait
+    defaults Encode::{encode_raw, encode, encode_into} (pli/mod.rs).  Each must be, modulo
+    white space and comments, the text the Gallina definition was written from."""
+    errors = []
+
+    def body_of(src, impl_re, fn, what):
+        try:
+            blk = find_block(src, impl_re, what)
+            b = find_fn(blk, fn, what)
+        except ParseError as e:
+            errors.append(str(e))
+            return None
+        if b is None:
+            errors.append("%s: fn %s has no body" % (what, fn))
+            return None
+        return norm(b)
+
+    es = r"\bimpl\s*<\s*A\s*:\s*Alphabet\s*>\s*EncodedSequence\s*<\s*A\s*>\s*\{"
+    expect = [
+        (seq_src, es, "new", "impl EncodedSequence",
+         ["Self{data,alphabet:std::marker::PhantomData,}", "Self{data,alphabet:std::marker::PhantomData}"],
+         "EncodeInst.pipeline_encode_raw (encode = encode_raw + new)"),
+        (seq_src, es, "encode", "impl EncodedSequence",
+         ["letpli=Pipeline::<A,_>::dispatch();pli.encode(sequence.as_ref())"],
+         "EncodeInst.encoded_sequence_encode"),
+        (seq_src, r"\bimpl\s*<\s*A\s*:\s*Alphabet\s*>\s*FromStr\s+for\s+EncodedSequence\s*<\s*A\s*>\s*\{", "from_str",
+         "impl FromStr for EncodedSequence", ["Self::encode(seq)"], "EncodeInst.encoded_sequence_encode (from_str)"),
+        (seq_src, r"\bimpl\s*<\s*A\s*:\s*Alphabet\s*>\s*Display\s+for\s+EncodedSequence\s*<\s*A\s*>\s*\{", "fmt",
+         "impl Display for EncodedSequence", ["forcinself.data.iter(){f.write_char(c.as_char())?;}Ok(())"],
+         "EncodeModel.display / to_string"),
+        (mod_src, r"\bpub\s+trait\s+Encode\s*<\s*A\s*:\s*Alphabet\s*>\s*\{", "encode_raw", "trait Encode",
+         ["lets=seq.as_ref();letmutbuffer=Vec::with_capacity(s.len());unsafe{buffer.set_len(s.len())};"
+          "matchself.encode_into(s,&mutbuffer){Ok(_)=>Ok(buffer),Err(e)=>Err(e),}"], "EncodeModel.encode_raw"),
+        (mod_src, r"\bpub\s+trait\s+Encode\s*<\s*A\s*:\s*Alphabet\s*>\s*\{", "encode", "trait Encode",
+         ["self.encode_raw(seq).map(EncodedSequence::new)"], "EncodeInst.pipeline_encode_raw"),
+        (mod_src, r"\bpub\s+trait\s+Encode\s*<\s*A\s*:\s*Alphabet\s*>\s*\{", "encode_into", "trait Encode",
+         ["assert_eq!(seq.as_ref().len(),dst.len());for(i,c)inseq.as_ref().iter().enumerate(){"
+          "dst[i]=A::Symbol::from_ascii(*c)?;}Ok(())"], "EncodeModel.encode_into_generic / gen_loop"),
+    ]
+    for src, impl_re, fn, what, wants, model in expect:
+        b = body_of(src, impl_re, fn, what)
+        if b is not None and b not in wants:
+            errors.append("%s::%s body differs from the text modelled by %s: %r" % (what, fn, model, b))
+    return errors
 
 
 # ------------------------------------------------------------------ output
@@ -551,6 +626,8 @@ def translate():
                 errors.append("pli/mod.rs: Pipeline<A,%s>::encode_into is not `%s::encode_into::<A>(seq.as_ref(), dst)`" % (b, b))
         if "impl<A:Alphabet>Encode<A>forPipeline<A,Generic>{}" not in msrc:
             errors.append("pli/mod.rs: Pipeline<A,Generic> overrides Encode methods")
+        errors += check_bodies(strip_comments(open(os.path.join(REPO, "lightmotif/src/seq.rs")).read()),
+                               strip_comments(open(os.path.join(REPO, "lightmotif/src/pli/mod.rs")).read()))
     except (ParseError, OSError) as e:
         return dict(ok=False, errors=["cannot parse source: %s" % e], notes=notes)
     text = emit(abcs, dispatch, kernels, {})
